@@ -53,6 +53,7 @@ type c15Case struct {
 	Types    []c15VT   `json:"types,omitempty"`
 	Profiles []c15Prof `json:"profiles,omitempty"`
 	Stream   string    `json:"stream,omitempty"`
+	Values   []int64   `json:"values,omitempty"` // kind cli: one function per value
 }
 
 func c15hex(s string) string { return hex.EncodeToString([]byte(s)) }
@@ -1336,6 +1337,8 @@ func (st *c15State) run(cs c15Case) bool {
 		return st.pctCase(cs)
 	case "common":
 		return st.commonCase(cs)
+	case "cli":
+		return st.cliReplay(c15CLI{Values: cs.Values, From: cs.From, To: cs.To})
 	case "sp":
 		if len(cs.Profiles) == 0 {
 			return false
@@ -1354,7 +1357,7 @@ func (st *c15State) run(cs c15Case) bool {
 
 func c15canon(cs c15Case) string {
 	var b strings.Builder
-	fmt.Fprintf(&b, "%s|%d|%d|%s|%s|%s", cs.Kind, cs.V, cs.V2, cs.From, cs.To, c15vtToks(cs.Types))
+	fmt.Fprintf(&b, "%s|%d|%d|%s|%s|%s|%v", cs.Kind, cs.V, cs.V2, cs.From, cs.To, c15vtToks(cs.Types), cs.Values)
 	for _, p := range cs.Profiles {
 		fmt.Fprintf(&b, "|%d %s %v", p.Period, c15vtToks(p.SampleType), p.Samples)
 		if p.PeriodType != nil {
@@ -1365,7 +1368,7 @@ func c15canon(cs c15Case) string {
 }
 
 func runC15(c *Ctx) {
-	c.Res.Rule = "scale: every spelling (name, UPPER, Title, plural, UPPER plural, mixed case; printed names; unknown/odd strings) of every unit name of the Lean spec dictionary and of the regenerated table × targets (every unit of the family, auto, minimum, other family, unknown, skip words) × int64 strategies (0, ±1, every unit step ±1 for the pair, rounding ties, 2^53±1, MaxInt64, MinInt64(+1), random widths); mono: neighbouring values around unit steps and rounding ties; pct: value/total pairs around 1%, 99.95%, 100.05%, zero total, extremes; common/sp: 1–4 value types / profiles over compatible and incompatible unit spellings. Non-trivial = the source unit is a unit name by the spec, so the conversion mechanism (sniffUnit → convertUnit/autoScale) is reached (scale/mono); total ≠ 0 (pct); ≥2 compatible types (common); at least one column actually rescaled (sp). Distinct by canonical case text."
+	c.Res.Rule = "scale: every spelling (name, UPPER, Title, plural, UPPER plural, mixed case; printed names; unknown/odd strings) of every unit name of the Lean spec dictionary and of the regenerated table × targets (every unit of the family, auto, minimum, other family, unknown, skip words) × int64 strategies (0, ±1, every unit step ±1 for the pair, rounding ties, 2^53±1, MaxInt64, MinInt64(+1), random widths); mono: neighbouring values around unit steps and rounding ties; pct: value/total pairs around 1%, 99.95%, 100.05%, zero total, extremes; common/sp: 1–4 value types / profiles over compatible and incompatible unit spellings; cli: `pprof -top -unit=…` on generated one-function-per-value profiles (printed flat values = ScaledLabel, flat% = Percentage, one output unit for the report). Non-trivial = the source unit is a unit name by the spec, so the conversion mechanism (sniffUnit → convertUnit/autoScale) is reached (scale/mono); total ≠ 0 (pct); ≥2 compatible types (common); at least one column actually rescaled (sp). Distinct by canonical case text."
 	st := c15Init(c)
 	if !st.alive {
 		return
